@@ -61,19 +61,23 @@ impl C12 {
 
 const TIMES: &[&str] = &["0", "0.00000000000000001", "10", "10", "20", "-5", "10.5", "1e3", "2147483648", "abc", " 7 ", "10.000000000000001", "20", "0", "0.00000000000000015", "0.0000000000000003", "-0.0000000000000001", "0.00000000000000045", "0.5", "0.5000000000000001"];
 const BLS: &[&str] = &["500", "-100", "-50", "0", "-0.5", "1e9", "3000000000", "NaN", "-1000000", "5", "70000", "-20", "x", "inf", "-inf", "333.33", "-100", "500", "6", "60000", "-1000", "-10", "-100.00000000000001", "-200", "-200.00000000000003", "-400", "-400.00000000000006", "-1000.0000000000001", "-10000", "-100000"];
-const SIGS: &[&str] = &["4", "3", "0", "05", "-1", "7", "", "x", "4"];
+const SIGS: &[&str] = &["4", "3", "0", "05", "-1", "7", "", "x", "4", "2147483647", "2147483648", "4294967295", "+3", " 5", "-0"];
 const BANKS: &[&str] = &["0", "1", "2", "3", "4", "-1", "x"];
 const CUSTOMS: &[&str] = &["0", "1", "2", "x"];
 const VOLS: &[&str] = &["100", "0", "-5", "150", "50", "x", "100"];
-const TCS: &[&str] = &["1", "0", "", "2", "10", "0", "1"];
+const TCS: &[&str] = &["1", "0", "", "2", "10", "0", "1", " 1", "1 ", " 0", "+1", "01", "1.0", "true", "\t1"];
 const FLS: &[&str] = &["0", "1", "8", "9", "x", "3", "0"];
 
 fn gen_line(rng: &mut Rng) -> String {
     let nf = if rng.chance(1, 3) { 2 + rng.below(7) } else { 8 };
     let f = [*rng.pick(TIMES), *rng.pick(BLS), *rng.pick(SIGS), *rng.pick(BANKS), *rng.pick(CUSTOMS), *rng.pick(VOLS), *rng.pick(TCS), *rng.pick(FLS)];
     let mut l = f[..nf.min(8)].join(",");
+    if nf == 8 && rng.chance(1, 8) {
+        // surplus fields / a trailing comma after the effect flags
+        l.push_str(*rng.pick(&[",", ",0", ",x,y", ",,", ",1,2,3"]));
+    }
     if rng.chance(1, 10) {
-        l.push_str(" // c");
+        l.push_str(*rng.pick(&[" // c", "//c", " // a,b", "// 1,2,3"]));
     }
     if rng.chance(1, 20) {
         l = l.split(',').next().unwrap().to_string();
@@ -148,6 +152,7 @@ impl Scenario for C12 {
         p.set("mode", rng.below(4) as i64);
         p.set("general", rng.below(6) as i64);
         p.set("via", *rng.pick(&[0i64, 0, 1, 2]));
+        p.set("version", *rng.pick(&[14i64, 14, 5, 6, 7, 9, 13, 128]));
         if rng.chance(1, 6) && !self.sections.is_empty() {
             let (name, l) = rng.pick(&self.sections);
             p.scen = "bundled-section".into();
@@ -200,10 +205,13 @@ impl Scenario for C12 {
         let mode = plan.get("mode").rem_euclid(4);
         let (general, def_bank, def_vol) = general_lines(plan.get("general"));
         let via = plan.get("via");
+        // format versions below 5 are left out on purpose: osu!lazer shifts early-version times by 24 ms, the statement
+        // is silent about it, so either behaviour would have to be accepted there
+        let version = plan.get_or("version", 14).clamp(5, 1000) as i32;
         st.add("steps.ops_applied", plan.lines.len() as u64);
         let (real, lines_seen): (ControlPoints, Vec<String>) = if via == 0 {
             st.inc("via.line-api");
-            let mut s = <TimingPoints as DecodeBeatmap>::State::create(14);
+            let mut s = <TimingPoints as DecodeBeatmap>::State::create(version);
             for g in &general {
                 let _ = TimingPoints::parse_general(&mut s, g);
             }
@@ -218,7 +226,7 @@ impl Scenario for C12 {
             let tp: TimingPoints = s.into();
             (tp.control_points, plan.lines.clone())
         } else {
-            let mut text = String::from("osu file format v14\n\n[General]\n");
+            let mut text = format!("osu file format v{version}\n\n[General]\n");
             for g in &general {
                 text.push_str(g);
                 text.push('\n');
